@@ -574,6 +574,13 @@ func (r *yieldRewriter) rewriteForStmt(
 	} else {
 		// can't declare variable in for-post, name conflict free
 		assert(!isDefineStmt(stmt.Post))
+		if declares(body.block) {
+			// the post stmt must not see the variables declared in the (trival) body,
+			// keep the body in its own scope: { $body }; return Bind($post, ...)
+			scoped := mkBlock(body.kind)
+			scoped.push(body.block, kindTrival)
+			body = scoped
+		}
 		body.markCombined()
 		r.rewriteStmt(stmt.Post, true, body)
 	}
